@@ -379,3 +379,45 @@ pub fn world_diff(a: &World, b: &World) -> Option<String> {
     }
     None
 }
+
+/// address of the first account that differs between two worlds
+pub fn first_diff_account(a: &World, b: &World) -> Option<Address> {
+    let keys: std::collections::BTreeSet<_> = a.accounts.keys().chain(b.accounts.keys()).collect();
+    for k in keys {
+        if a.accounts.get(k) != b.accounts.get(k) {
+            return Some(*k);
+        }
+    }
+    None
+}
+
+/// shape of an account in the pre-history world, used in signatures
+pub fn account_shape(w: &World, a: &Address) -> &'static str {
+    match w.accounts.get(a) {
+        None => "absent-in-pre-state",
+        Some(x) if x.code.is_empty() && x.nonce == 0 && x.storage.values().any(|v| !v.is_zero()) => "storage-but-no-code-and-nonce(eip7610-shape)",
+        Some(x) if x.is_empty() => "empty-in-pre-state",
+        Some(x) if x.code.is_empty() => "eoa-in-pre-state",
+        Some(_) => "contract-in-pre-state",
+    }
+}
+
+// component traits so that RefDB can sit inside DatabaseComponents
+impl revm::primitives::db::StateRef for RefDB {
+    type Error = String;
+    fn basic(&self, address: Address) -> Result<Option<AccountInfo>, String> {
+        self.basic_ref(address)
+    }
+    fn code_by_hash(&self, h: B256) -> Result<Bytecode, String> {
+        self.code_by_hash_ref(h)
+    }
+    fn storage(&self, address: Address, index: U256) -> Result<U256, String> {
+        self.storage_ref(address, index)
+    }
+}
+impl revm::primitives::db::BlockHashRef for RefDB {
+    type Error = String;
+    fn block_hash(&self, number: u64) -> Result<B256, String> {
+        self.block_hash_ref(number)
+    }
+}
